@@ -53,14 +53,15 @@ type block struct {
 }
 
 type workload struct {
-	Seed, Index uint64
-	nBlocks     int
-	blocks      []*block            // blocks[h], h = 1..nBlocks+1 (the last one only continues a re-opened store); blocks[0] = nil
-	states      []map[string][]byte // states[h] = state after block h
-	roots       [][]byte            // reference commitment of states[h]
-	memTable    uint64
-	settle      bool            // wait for the file system to go quiet after every commit
-	flushAfter  map[uint64]bool // explicit DB().Flush() after the commit of these heights (a sync point)
+	Seed, Index  uint64
+	nBlocks      int
+	blocks       []*block            // blocks[h], h = 1..nBlocks+1 (the last one only continues a re-opened store); blocks[0] = nil
+	states       []map[string][]byte // states[h] = state after block h
+	roots        [][]byte            // reference commitment of states[h]
+	memTable     uint64
+	settle       bool            // wait for the file system to go quiet after every commit
+	flushAfter   map[uint64]bool // explicit DB().Flush() after the commit of these heights (a sync point)
+	compactAfter map[uint64]bool // explicit CompactAll() after the commit of these heights (what MaybeCompact does periodically)
 }
 
 func stateKey(i int) []byte {
@@ -77,8 +78,13 @@ func hash(parts ...any) []byte {
 
 func newWorkload(seed, index uint64) *workload {
 	r := rand.New(rand.NewPCG(seed, index))
-	w := &workload{Seed: seed, Index: index, nBlocks: 3 + r.IntN(6), flushAfter: map[uint64]bool{}}
-	w.memTable = uint64(16+r.IntN(49)) << 10 // 16..64 KiB
+	w := &workload{Seed: seed, Index: index, nBlocks: 3 + r.IntN(6), flushAfter: map[uint64]bool{}, compactAfter: map[uint64]bool{}}
+	// 16..64 KiB: every block's batch is a "large batch" for pebble (own flushable, WAL rotation and flush per commit);
+	// 128..512 KiB: batches are appended to the shared WAL/memtable without sync, a flush happens every few blocks
+	w.memTable = uint64(16+r.IntN(49)) << 10
+	if r.IntN(2) == 0 {
+		w.memTable = uint64(128+r.IntN(385)) << 10
+	}
 	w.settle = r.IntN(2) == 0
 	nKeys := 24 + r.IntN(40)
 	cur := map[string][]byte{}
@@ -134,6 +140,9 @@ func newWorkload(seed, index uint64) *workload {
 		}
 		if h <= uint64(w.nBlocks) && r.IntN(5) == 0 {
 			w.flushAfter[h] = true
+		}
+		if h <= uint64(w.nBlocks) && r.IntN(6) == 0 {
+			w.compactAfter[h] = true
 		}
 		w.blocks, w.states, w.roots = append(w.blocks, b), append(w.states, st), append(w.roots, root)
 	}
@@ -602,6 +611,11 @@ func play(w *workload, r *runner) (nOps int, err error) {
 				r.synced.Store(h)
 			}
 		}
+		if w.compactAfter[h] {
+			if e := st.CompactAll(h); e != nil {
+				return 0, fmt.Errorf("compact: %v", e)
+			}
+		}
 		if w.settle {
 			settleFS(fs)
 		}
@@ -639,6 +653,10 @@ func TestC09Crash(t *testing.T) {
 	if v, err := strconv.Atoi(os.Getenv("VERIF_C09_BUDGET_S")); err == nil && v > 0 {
 		budget = time.Duration(v) * time.Second
 	}
+	everyMax := 600 // crash at every operation up to this many operations per workload
+	if v, err := strconv.Atoi(os.Getenv("VERIF_C09_EVERY_MAX")); err == nil && v > 0 {
+		everyMax = v
+	}
 	start := time.Now()
 	totalOps, everyN, sampledN := 0, 0, 0
 	for i := 0; i < nWorkloads; i++ {
@@ -652,7 +670,7 @@ func TestC09Crash(t *testing.T) {
 			t.Fatalf("%s dry run: %v", w, err)
 		}
 		totalOps += n
-		r := &runner{w: w, rec: rec, every: n <= 600, sampleP: 150 / float64(max(n, 1)), rng: rand.New(rand.NewPCG(seed, 1000+uint64(i))),
+		r := &runner{w: w, rec: rec, every: n <= everyMax, sampleP: 150 / float64(max(n, 1)), rng: rand.New(rand.NewPCG(seed, 1000+uint64(i))),
 			firstOp: map[uint64]int{}, lastOp: map[uint64]int{}, maxStates: 6000}
 		if r.every {
 			everyN++
